@@ -178,6 +178,51 @@ pub fn enumeral_lookup(m: &Model, ctx: &mut Ctx, rule: &str) {
     }
 }
 
+/// C07.named (inline INTEGER): an identifier given as the value of an INTEGER type with its own named numbers
+/// (`a INTEGER { first(1), limit(5) } DEFAULT limit`) is that named number. The arm of link_with_type for (INTEGER, identifier)
+/// is evaluated with the wanted name *second* in the list.
+pub fn inline_named_number(m: &Model, ctx: &mut Ctx, rule: &str) {
+    use std::collections::BTreeMap as Map;
+    let Some(f) = m.fns.iter().find(|f| f.name == "link_with_type" && f.self_ty.as_deref() == Some("ASN1Value")) else {
+        ctx.fail_closed(rule, "anchor not found: ASN1Value::link_with_type");
+        return;
+    };
+    let Some(mt) = model::matches_in(&f.block).into_iter().max_by_key(|mt| mt.arms.len()) else { return };
+    let consts = const_resolver(m);
+    let hook = |_: &Evaluator, name: &str, _a: &[Val]| -> Option<Result<Val, String>> {
+        match name {
+            ".int_type" => Some(Ok(Val::Sym("INT".into()))),
+            _ => None,
+        }
+    };
+    let ev = Evaluator { consts: &consts, call_hook: &hook, inline: None };
+    let named = |n: &str, fields: Vec<(&str, Val)>| Val::Ctor(n.to_string(), vec![], fields.into_iter().map(|(k, v)| (k.to_string(), v)).collect::<Map<_, _>>());
+    let dv = |n: &str, v: i128| named("DistinguishedValue", vec![("name", Val::Str(n.into())), ("value", Val::int(v))]);
+    let ty = Val::Ctor("Integer".into(), vec![named("Integer", vec![("distinguished_values", Val::some(Val::List(vec![dv("first", 1), dv("limit", 5)]))), ("constraints", Val::List(vec![]))])], Map::new());
+    for (id, want) in [("limit", Some(5i128)), ("first", Some(1)), ("other", None)] {
+        ctx.oblige(rule, &format!("inline-named-number:{}", id), true);
+        let value = named("ElsewhereDeclaredValue", vec![("identifier", Val::Str(id.into())), ("parent", Val::none()), ("module", Val::none())]);
+        let mut env = Env::new();
+        env.insert("self".into(), value.clone());
+        env.insert("tlds".into(), Val::Opaque("tlds".into()));
+        env.insert("type_name".into(), Val::none());
+        let r = ev.select_arm(&mt, &Val::Tuple(vec![ty.clone(), value]), &env).and_then(|(i, mut e2)| {
+            ev.eval(&mt.arms[i].body, &mut e2)?;
+            Ok(e2.get("self").map(|v| v.show()).unwrap_or_default())
+        });
+        match r {
+            Ok(sh) => {
+                let got = if sh.starts_with("LinkedIntValue{") { sh.split("value:").nth(1).and_then(|r| r.trim_end_matches('}').parse::<i128>().ok()) } else { None };
+                if got != want {
+                    ctx.violate(rule, "inline-named-number", &f.file, crate::rules::util::span_line(&mt),
+                        &format!("`{}` as a value of INTEGER {{ first(1), limit(5) }} is linked as `{}`; expected {:?}", id, sh.chars().take(80).collect::<String>(), want));
+                }
+            }
+            Err(e) => ctx.fail_closed(rule, &format!("[inline named number {}]: {}", id, e)),
+        }
+    }
+}
+
 /// C07.cstring: "character strings with doubled quotes unescaped" starts with finding the end of the literal: the scanner
 /// behind raw_string_literal (take_until_and_not(QUOTE, QUOTE QUOTE)) is evaluated on the text after an opening quotation
 /// mark — the literal ends at the first quotation mark that is not doubled, whatever follows later in the file.
@@ -594,6 +639,7 @@ Not applicable (run-time values): resolution of references, nested CHOICE/SEQUEN
     crate::rules::c06::named_first(m, ctx, "C07.named");
     named_lookup(m, ctx, "C07.named");
     enumeral_lookup(m, ctx, "C07.named");
+    inline_named_number(m, ctx, "C07.named");
     cstring_end(m, ctx, "C07.cstring");
     single_element_list(m, ctx, "C07.list");
     oid(m, ctx, &ev);
